@@ -97,7 +97,7 @@ func c19Canon(sn *snode, d *dnode, b *strings.Builder, depth int, sortKids bool)
 			// entries: order matters only for ordered-by user
 			l := &dnode{name: k.name, kids: append([]*dnode{}, k.kids...)}
 			if !ks.ordUser {
-				sort.SliceStable(l.kids, func(i, j int) bool { return l.kids[i].name < l.kids[j].name })
+				sort.SliceStable(l.kids, func(i, j int) bool { return c19EntryKey(l.kids[i]) < c19EntryKey(l.kids[j]) })
 			}
 			fmt.Fprintf(b, "%s  %s (list)\n", ind, l.name)
 			for _, e := range l.kids {
@@ -125,6 +125,16 @@ func c19Canon(sn *snode, d *dnode, b *strings.Builder, depth int, sortKids bool)
 			c19Canon(nil, k, b, depth+1, true)
 		}
 	}
+}
+
+// c19EntryKey: what tells the entries of a list apart (the first key names the entry; a second key k2, if
+// the list has one, belongs to its identity as well).
+func c19EntryKey(e *dnode) string {
+	key := e.name
+	if k2 := e.kid("k2"); k2 != nil && len(k2.vals) == 1 {
+		key += "\x00" + k2.vals[0]
+	}
+	return key
 }
 
 func c19CanonStr(root *snode, d *dnode) string {
@@ -219,10 +229,10 @@ func c19Conforms(root *snode, d *dnode, path string, bad *[]string) {
 		case "list":
 			keys := map[string]bool{}
 			for _, e := range k.kids {
-				if keys[e.name] {
+				if keys[c19EntryKey(e)] {
 					*bad = append(*bad, kp+"/"+e.name+": two entries of the list have this key")
 				}
-				keys[e.name] = true
+				keys[c19EntryKey(e)] = true
 				c19Conforms(ks, e, kp+"/"+e.name, bad)
 			}
 		default:
